@@ -18,7 +18,16 @@ import hugr.model as model
 from hugr._serialization.ops import OpType as SerialOp
 from hugr._serialization.serial_hugr import SerialHugr
 from hugr.exceptions import ParentBeforeChild
-from hugr.ops import Call, Const, Custom, DataflowOp, Module, Op
+from hugr.ops import (
+    Call,
+    Const,
+    Custom,
+    DataflowOp,
+    LoadConst,
+    LoadFunc,
+    Module,
+    Op,
+)
 from hugr.tys import Kind, Type, ValueKind
 from hugr.utils import BiMap
 from hugr.val import Value
@@ -697,10 +706,28 @@ class Hugr(Mapping[Node, NodeData], Generic[OpVarCov]):
         # not counted in the number of ports.
         if p.offset < 0:
             assert p.offset == -1, "Only order edges are allowed with offset < 0"
-            offset = self.num_ports(p.node, p.direction)
+            offset = self._order_port_offset(p.node, p.direction)
         else:
             offset = p.offset
 
+        return offset
+
+    def _order_port_offset(self, node: Node, direction: Direction) -> PortOffset:
+        """Offset of the state order port of a node: the first port after the
+        value ports (and the static input port) of its operation, whether or
+        not all of those are connected.
+        """
+        offset = self.num_ports(node, direction)
+        op = self[node].op
+        if direction == Direction.OUTGOING:
+            if isinstance(op, DataflowOp | Call):
+                offset = max(offset, op.num_out)
+        elif isinstance(op, Call):
+            offset = max(offset, len(op.instantiation.input) + 1)
+        elif isinstance(op, LoadConst | LoadFunc):
+            offset = max(offset, 1)
+        elif isinstance(op, DataflowOp):
+            offset = max(offset, len(op.outer_signature().input))
         return offset
 
     def resolve_extensions(self, registry: ext.ExtensionRegistry) -> Hugr:
